@@ -4,7 +4,11 @@
 #ifndef LL2C_RT_H
 #define LL2C_RT_H
 
+#ifdef __cplusplus
+typedef bool u1;
+#else
 typedef _Bool u1;
+#endif
 typedef unsigned char u8;
 typedef unsigned short u16;
 typedef unsigned int u32;
@@ -32,8 +36,16 @@ LL_DEFVEC(1, f32, 4) LL_DEFVEC(2, f32, 8) LL_DEFVEC(4, f32, 16) LL_DEFVEC(8, f32
 LL_DEFVEC(1, f64, 8) LL_DEFVEC(2, f64, 16) LL_DEFVEC(4, f64, 32) LL_DEFVEC(8, f64, 64)
 
 /* non-deterministic values (undef / poison) */
+#ifdef LL2C_NATIVE
+static inline u1 nondet_u1(void) { return 0; } static inline u8 nondet_u8(void) { return 0; } static inline u16 nondet_u16(void) { return 0; }
+static inline u32 nondet_u32(void) { return 0; } static inline u64 nondet_u64(void) { return 0; } static inline u128 nondet_u128(void) { return 0; }
+static inline f32 nondet_f32(void) { return 0; } static inline f64 nondet_f64(void) { return 0; } static inline void *nondet_ptr(void) { return 0; }
+#define __CPROVER_assert(c, m) ((void)0)
+#define __CPROVER_assume(c) ((void)0)
+#else
 u1 nondet_u1(void); u8 nondet_u8(void); u16 nondet_u16(void); u32 nondet_u32(void); u64 nondet_u64(void); u128 nondet_u128(void);
 f32 nondet_f32(void); f64 nondet_f64(void); void *nondet_ptr(void);
+#endif
 
 /* bit reinterpretation */
 static inline u32 F2U32(f32 f) { union { f32 f; u32 u; } x; x.f = f; return x.u; }
